@@ -260,6 +260,97 @@ func slices(maxLen int) {
 	}
 }
 
+// ladder: operands of 2^k-1, 2^k, 2^k+1 ... elements up to 1195 (thorough: 4778) (a helper may switch strategy at a size far above the
+// enumerated ones), as pairs and as triples in which a value is repeated in one later operand and missing in another.
+func ladder(maxP int) {
+	var ns []int
+	for p := 16; p <= maxP; p *= 2 {
+		ns = append(ns, p-1, p, p+1, p+p/6)
+	}
+	for _, n := range ns {
+		asc := make([]int, n)
+		dupB, holesC, rev := []int{}, []int{}, make([]int, n)
+		for i := 0; i < n; i++ {
+			asc[i] = i
+			rev[i] = n - 1 - i
+			// b: the values with i%3 == 0 twice, those with i%3 == 1 once, the others not at all (+ strangers)
+			switch i % 3 {
+			case 0:
+				dupB = append(dupB, i, i)
+			case 1:
+				dupB = append(dupB, i)
+			default:
+				dupB = append(dupB, n+i)
+			}
+			// c: the values with i%2 == 1 (so: twice-in-b but not in c happens for i%6 == 0)
+			if i%2 == 1 {
+				holesC = append(holesC, i, i)
+			}
+		}
+		ops := [][]int{asc, dupB, holesC, rev}
+		set := func(l []int) map[int]bool {
+			m := map[int]bool{}
+			for _, x := range l {
+				m[x] = true
+			}
+			return m
+		}
+		for ai, a := range ops {
+			for bi, b := range ops {
+				for ci := -1; ci < len(ops); ci++ {
+					inputs++
+					evals += 6
+					var rest [][]int
+					d := fmt.Sprintf("size-ladder n=%d operands #%d (%d items), #%d (%d items)", n, ai, len(a), bi, len(b))
+					sb := set(b)
+					inAll, inAny := func(x int) bool { return sb[x] }, func(x int) bool { return sb[x] }
+					rest = [][]int{b}
+					if ci >= 0 {
+						c := ops[ci]
+						sc := set(c)
+						d += fmt.Sprintf(", #%d (%d items)", ci, len(c))
+						inAll, inAny = func(x int) bool { return sb[x] && sc[x] }, func(x int) bool { return sb[x] || sc[x] }
+						rest = [][]int{b, c}
+					}
+					var in, df, un []int
+					var ini []interface{}
+					var ri [][]interface{}
+					for _, l := range rest {
+						ri = append(ri, ifaces(l))
+					}
+					snap := fmt.Sprint(a, rest)
+					if !call("ladder", d, func() {
+						gl, il := append([][]int{a}, rest...), append([][]interface{}{ifaces(a)}, ri...)
+						in, ini = fpgo.Intersection(gl...), fpgo.IntersectionForInterface(il...)
+						df, un = fpgo.Difference(gl...), fpgo.Union(gl...)
+					}) {
+						continue
+					}
+					if snap != fmt.Sprint(a, rest) {
+						bad("slice", "operand-modified", "a set operation on %s changed an operand", d)
+					}
+					if !seq(in, ints(ini)) {
+						bad("Intersection", "twin", "Intersection(%s) has %d items, ForInterface %d", d, len(in), len(ini))
+					}
+					if !seq(in, firstOcc(a, inAll)) {
+						bad("Intersection", "law", "Intersection(%s) has %d items, want %d", d, len(in), len(firstOcc(a, inAll)))
+					}
+					if !seq(df, firstOcc(a, func(x int) bool { return !inAny(x) })) {
+						bad("Difference", "law", "Difference(%s) has %d items", d, len(df))
+					}
+					all := append([]int{}, a...)
+					for _, l := range rest {
+						all = append(all, l...)
+					}
+					if !seq(sorted(un), sorted(firstOcc(all, func(int) bool { return true }))) {
+						bad("Union", "law", "Union(%s) has %d items", d, len(un))
+					}
+				}
+			}
+		}
+	}
+}
+
 func streams(maxLen int) {
 	short := allLists(maxLen)
 	ls := append(append([][]int{}, short...), longLists()...)
@@ -458,79 +549,90 @@ func streamSets() {
 		}
 		return true
 	}
-	for _, a := range ms {
-		for _, b := range ms {
-			inputs++
-			d := fmt.Sprintf("(%s, %s)", coll.RenderSS(a), coll.RenderSS(b))
-			type res struct {
-				un, in, ms, mi string
-				sub, sup       bool
-			}
-			var out [2]res
-			var panics [2]string
-			for f, mk := range []func(map[string][]int) coll.StreamSet{coll.NewGSS, coll.NewISS} {
-				f, mk := f, mk
-				evals++
-				panics[f] = lib.Catch(func() {
-					sa, sb := mk(a), mk(b)
-					out[f] = res{render(sa.Union(sb)), render(sa.Intersection(sb)), render(sa.MinusStreams(sb)), render(sa.Minus(sb)), sa.IsSubsetByKey(sb), sa.IsSupersetByKey(sb)}
-					if render(sa) != coll.RenderSS(norm(a)) || render(sb) != coll.RenderSS(norm(b)) {
-						bad("StreamSet", "operand-modified", "stream-set operations changed an operand of %s", d)
+	// layout 0: every stream owns its list; layout 1: the streams of a set are consecutive windows of one list
+	// (spare capacity of one stream is its neighbour's data)
+	for layout := 0; layout < 2; layout++ {
+		mks := []func(map[string][]int) coll.StreamSet{coll.NewGSS, coll.NewISS}
+		if layout == 1 {
+			mks = []func(map[string][]int) coll.StreamSet{coll.NewGSSChunked, coll.NewISSChunked}
+		}
+		for _, a := range ms {
+			for _, b := range ms {
+				inputs++
+				d := fmt.Sprintf("(%s, %s)", coll.RenderSS(a), coll.RenderSS(b))
+				if layout == 1 {
+					d += " [streams are windows of one list]"
+				}
+				type res struct {
+					un, in, ms, mi string
+					sub, sup       bool
+				}
+				var out [2]res
+				var panics [2]string
+				for f, mk := range mks {
+					f, mk := f, mk
+					evals++
+					panics[f] = lib.Catch(func() {
+						sa, sb := mk(a), mk(b)
+						out[f] = res{render(sa.Union(sb)), render(sa.Intersection(sb)), render(sa.MinusStreams(sb)), render(sa.Minus(sb)), sa.IsSubsetByKey(sb), sa.IsSupersetByKey(sb)}
+						if render(sa) != coll.RenderSS(norm(a)) || render(sb) != coll.RenderSS(norm(b)) {
+							bad("StreamSet", "operand-modified", "stream-set operations changed an operand of %s", d)
+						}
+					})
+				}
+				if panics[0] != "" || panics[1] != "" {
+					cl := "panic"
+					if hasNil(a) || hasNil(b) {
+						cl = "panic|nil-stream-value"
 					}
-				})
-			}
-			if panics[0] != "" || panics[1] != "" {
-				cl := "panic"
-				if hasNil(a) || hasNil(b) {
-					cl = "panic|nil-stream-value"
+					bad("StreamSet", cl, "stream-set operations on %s: generic %q, interface{} %q", d, panics[0], panics[1])
+					continue
 				}
-				bad("StreamSet", cl, "stream-set operations on %s: generic %q, interface{} %q", d, panics[0], panics[1])
-				continue
-			}
-			if out[0] != out[1] {
-				key := "twin"
-				if len(a) == 0 || len(b) == 0 {
-					key = "twin|empty-operand"
-				}
-				for name, pair := range map[string][2]interface{}{"Union": {out[0].un, out[1].un}, "Intersection": {out[0].in, out[1].in}, "MinusStreams": {out[0].ms, out[1].ms},
-					"Minus": {out[0].mi, out[1].mi}, "IsSubsetByKey": {out[0].sub, out[1].sub}, "IsSupersetByKey": {out[0].sup, out[1].sup}} {
-					if pair[0] != pair[1] {
-						bad("StreamSet."+name, key, "StreamSet.%s on %s: generic %v, interface{} %v", name, d, pair[0], pair[1])
+				if out[0] != out[1] {
+					key := "twin"
+					if len(a) == 0 || len(b) == 0 {
+						key = "twin|empty-operand"
 					}
-				}
-				continue
-				bad("StreamSet", key, "StreamSet ops on %s: generic %+v, interface{} %+v", d, out[0], out[1])
-			}
-			if !full(a) || !full(b) {
-				continue
-			}
-			// laws (by key, then per-key stream)
-			wu, wi, wms := map[string][]int{}, map[string][]int{}, map[string][]int{}
-			for k, v := range a {
-				wu[k] = v
-				wms[k] = v
-				if w, ok := b[k]; ok {
-					wu[k] = append(append([]int{}, v...), w...)
-					wi[k] = firstOcc(v, func(x int) bool { return has(w, x) })
-					var m []int
-					for _, x := range v {
-						if !has(w, x) {
-							m = append(m, x)
+					for name, pair := range map[string][2]interface{}{"Union": {out[0].un, out[1].un}, "Intersection": {out[0].in, out[1].in}, "MinusStreams": {out[0].ms, out[1].ms},
+						"Minus": {out[0].mi, out[1].mi}, "IsSubsetByKey": {out[0].sub, out[1].sub}, "IsSupersetByKey": {out[0].sup, out[1].sup}} {
+						if pair[0] != pair[1] {
+							bad("StreamSet."+name, key, "StreamSet.%s on %s: generic %v, interface{} %v", name, d, pair[0], pair[1])
 						}
 					}
-					if m == nil {
-						m = []int{}
+					continue
+					bad("StreamSet", key, "StreamSet ops on %s: generic %+v, interface{} %+v", d, out[0], out[1])
+				}
+				if !full(a) || !full(b) {
+					continue
+				}
+				// laws (by key, then per-key stream)
+				wu, wi, wms := map[string][]int{}, map[string][]int{}, map[string][]int{}
+				for k, v := range a {
+					wu[k] = v
+					wms[k] = v
+					if w, ok := b[k]; ok {
+						wu[k] = append(append([]int{}, v...), w...)
+						wi[k] = firstOcc(v, func(x int) bool { return has(w, x) })
+						var m []int
+						for _, x := range v {
+							if !has(w, x) {
+								m = append(m, x)
+							}
+						}
+						if m == nil {
+							m = []int{}
+						}
+						wms[k] = m
 					}
-					wms[k] = m
 				}
-			}
-			for k, w := range b {
-				if _, ok := a[k]; !ok {
-					wu[k] = w
+				for k, w := range b {
+					if _, ok := a[k]; !ok {
+						wu[k] = w
+					}
 				}
-			}
-			if out[0].un != coll.RenderSS(wu) || out[0].in != coll.RenderSS(wi) || out[0].ms != coll.RenderSS(wms) {
-				bad("StreamSet", "law", "StreamSet ops on %s: union %s intersection %s minusStreams %s; want %s %s %s", d, out[0].un, out[0].in, out[0].ms, coll.RenderSS(wu), coll.RenderSS(wi), coll.RenderSS(wms))
+				if out[0].un != coll.RenderSS(wu) || out[0].in != coll.RenderSS(wi) || out[0].ms != coll.RenderSS(wms) {
+					bad("StreamSet", "law", "StreamSet ops on %s: union %s intersection %s minusStreams %s; want %s %s %s", d, out[0].un, out[0].in, out[0].ms, coll.RenderSS(wu), coll.RenderSS(wi), coll.RenderSS(wms))
+				}
 			}
 		}
 	}
@@ -624,6 +726,7 @@ func main() {
 		}
 		in0 := inputs
 		slices(maxLen)
+		ladder(map[bool]int{false: 1024, true: 4096}[r.Tier == "thorough"])
 		streams(maxLen)
 		sets()
 		streamSets()
